@@ -1229,7 +1229,7 @@ def partialfwd(tier, seed, ci, nc, count=400):
     rng = _rng(seed, 'partialfwd', ci)
     univ = [s for s in U('xy', 2) if not any(p[0] in ('a', 'cb', 'target', 'args', 'kwargs') and p[1] not in ('vp', 'vk') for p in s)]
     for k in range(count // nc):
-        tmpl = ('posparam', 'kwdefault', 'kwbound', 'globnone', 'globkw', 'globpos', 'kwleading', 'nestedpartial', 'hintkwo', 'hintposo')[k % 10]
+        tmpl = ('posparam', 'kwdefault', 'kwbound', 'globnone', 'globkw', 'globpos', 'kwleading', 'nestedpartial', 'hintkwo', 'hintposo', 'nestedkw')[k % 11]
         yield ('rt:partialfwd', tmpl, rng.choice(univ), rng.choice(univ), rng.choice([0, 0, 1]))
 
 
